@@ -24,6 +24,7 @@ pub mod c09;
 pub mod c10;
 pub mod c11;
 pub mod c12;
+pub mod c13;
 
 pub fn all() -> Vec<Scenario> {
     let mut v = vec![];
@@ -37,5 +38,6 @@ pub fn all() -> Vec<Scenario> {
     c10::register(&mut v);
     c11::register(&mut v);
     c12::register(&mut v);
+    c13::register(&mut v);
     v
 }
